@@ -463,6 +463,10 @@ def cases(rng, tier):
                     'tol': tol, 'valid': True})
     # inputs outside the domain: both sides must refuse (or both accept: sparsity of site 0 is not checked for L > 1)
     out += invalid_cases(rng, tier)
+    # operand tensors in other memory layouts (Fortran order, non-contiguous views, negative strides): values unchanged
+    for c in out:
+        if 'mps' in c and 'mpo' in c and rng.random() < 0.2:
+            c['layout'] = rng.randrange(1, 4)
     return out
 
 
@@ -531,10 +535,16 @@ def _build(case):
     dts = case.get('dtypes') or {'mps': [case['dtype']] * len(case['mps']), 'mpo': [case['dtype']] * len(case['mpo'])}
     k = case.get('scale_exp', 0)
 
+    lay = [case.get('layout', 0)]
+
     def arr(a, dt):
         x = dec(a, dt)
         if k:
             x = (x.astype(np.float64) if dt == 'int' else x) * 2.0 ** k      # exact: power of two
+        if lay[0]:
+            import gen as G
+            lay[0] += 1
+            x = G.relayout(x, lay[0])       # other memory layouts of the operand tensors (values unchanged)
         return x
     mpss, mpos = [], []
     sd = case.get('sitedtypes') or {}
